@@ -43,9 +43,13 @@ def snapshot(d):
     return out
 
 
-def cli_compile(root, tag, inputs, fmt, hashseed, cwd, relative, patch=None):
+def cli_compile(root, tag, inputs, fmt, hashseed, cwd, relative, patch=None, prefill=None):
     out = os.path.join(root, 'out_' + tag)
     os.makedirs(out)
+    for fn, data in (prefill or {}).items():
+        # the output directory is not empty: it holds older files of the same names
+        with open(os.path.join(out, fn), 'wb') as f:
+            f.write(data)
     args = []
     for o in OUTS:
         if fmt == 'isar' and o == '--cpp_full_out' and False:
@@ -118,7 +122,7 @@ def run_group(acc, wd, gi, rng, seed):
             p = os.path.join(src, 'a.prophy')
             open(p, 'w').write(schA.to_prophy())
             inputsA = [p]
-        pb = os.path.join(src, 'b.prophy')
+        pb = os.path.join(src, 'b-v2.1.prophy' if sel == 2 else 'b.prophy')   # a base name that is no identifier
         open(pb, 'w').write(schB.to_prophy())
         if sel == 1:
             for q in (inputsA[-1], pb):
@@ -128,9 +132,9 @@ def run_group(acc, wd, gi, rng, seed):
             acc.feature('same-named-patched-node-in-two-inputs')
     runs = []
 
-    def go(tag, inputs, hashseed='0', cwd=None, relative=False):
+    def go(tag, inputs, hashseed='0', cwd=None, relative=False, prefill=None):
         cwd = cwd or src
-        rc, se, snap = cli_compile(root, tag, inputs, fmt, hashseed, cwd, relative, patch)
+        rc, se, snap = cli_compile(root, tag, inputs, fmt, hashseed, cwd, relative, patch, prefill)
         acc.ev()
         acc.count('cli_runs')
         acc.sig((gi, seed, tag))
@@ -152,6 +156,12 @@ def run_group(acc, wd, gi, rng, seed):
     sh = inputsA + [pb]
     rng.shuffle(sh)
     go('shuffled-order', sh, hashseed='3')
+    # what the output directory held before must not matter: older, longer files that begin like the new ones; files
+    # that are a proper prefix of the new ones; unrelated content
+    go('outdir-holds-longer-files', inputsA + [pb],
+       prefill={fn: d + b'\n\nclass StaleTail(object):\n    pass\n// stale tail\n' for fn, d in base.items()})
+    go('outdir-holds-shorter-files', inputsA + [pb], prefill={fn: d[:len(d) // 2] for fn, d in base.items()})
+    go('outdir-holds-other-files', inputsA + [pb], hashseed='1', prefill={fn: b'something else\n' for fn in base})
     go('A-alone', inputsA)
     go('B-alone', [pb], hashseed='1')
     # compare everything offline
